@@ -247,6 +247,12 @@ pub enum AOp {
     Area(i32),
     Fwd(u8, [f64; 3]),
     Inv(u8, [f64; 2]),
+    /// direct calls of module-level functions (first users of module-level lazily built tables)
+    Authalic(bool, f64),
+    IjToS(f64, f64, usize, u8),
+    SToAnchor(u64, usize, u8),
+    Nearest([f64; 3]),
+    Deser(u64),
 }
 impl AOp {
     pub fn json(&self) -> Value {
@@ -263,6 +269,11 @@ impl AOp {
             AOp::Area(r) => json!({"f": "cell_area", "res": r}),
             AOp::Fwd(f, v) => json!({"f": "forward", "face": f, "v": v}),
             AOp::Inv(f, q) => json!({"f": "inverse", "face": f, "q": q}),
+            AOp::Authalic(fwd, phi) => json!({"f": "authalic", "forward": fwd, "phi": phi}),
+            AOp::IjToS(x, y, n, o) => json!({"f": "ij_to_s", "x": x, "y": y, "n": n, "orientation": o}),
+            AOp::SToAnchor(s, n, o) => json!({"f": "s_to_anchor", "s": s, "n": n, "orientation": o}),
+            AOp::Nearest(v) => json!({"f": "find_nearest_origin", "v": v}),
+            AOp::Deser(c) => json!({"f": "deserialize", "id": subj::hex(*c)}),
         }
     }
     pub fn from_json(v: &Value) -> Option<AOp> {
@@ -287,6 +298,14 @@ impl AOp {
                 let a = fl("q")?;
                 AOp::Inv(v["face"].as_u64()? as u8, [a[0], a[1]])
             }
+            "authalic" => AOp::Authalic(v["forward"].as_bool()?, v["phi"].as_f64()?),
+            "ij_to_s" => AOp::IjToS(v["x"].as_f64()?, v["y"].as_f64()?, v["n"].as_u64()? as usize, v["orientation"].as_u64()? as u8),
+            "s_to_anchor" => AOp::SToAnchor(v["s"].as_u64()?, v["n"].as_u64()? as usize, v["orientation"].as_u64()? as u8),
+            "find_nearest_origin" => {
+                let a = fl("v")?;
+                AOp::Nearest([a[0], a[1], a[2]])
+            }
+            "deserialize" => AOp::Deser(id()?),
             _ => return None,
         })
     }
@@ -305,6 +324,18 @@ pub fn run_aop(op: &AOp) -> Res {
         AOp::Area(r) => Ok(vec![a5::cell_area(*r).to_bits(), a5::get_num_cells(*r)]),
         AOp::Fwd(f, v) => DodecahedronProjection::get_thread_local().forward(subj::sph(*v), *f).map(|p| vec![p.x().to_bits(), p.y().to_bits()]),
         AOp::Inv(f, q) => DodecahedronProjection::get_thread_local().inverse(Face::new(q[0], q[1]), *f).map(|s| vec![s.theta().get().to_bits(), s.phi().get().to_bits()]),
+        AOp::Authalic(fwd, phi) => {
+            let p = a5::projections::authalic::AuthalicProjection;
+            let r = a5::coordinate_systems::Radians::new_unchecked(*phi);
+            Ok(vec![if *fwd { p.forward(r) } else { p.inverse(r) }.get().to_bits()])
+        }
+        AOp::IjToS(x, y, n, o) => Ok(vec![a5::core::hilbert::ij_to_s(a5::coordinate_systems::IJ::new(*x, *y), *n, super::hilbert::ORIENTATIONS[*o as usize % 6].0)]),
+        AOp::SToAnchor(s, n, o) => {
+            let a = a5::core::hilbert::s_to_anchor(*s, *n, super::hilbert::ORIENTATIONS[*o as usize % 6].0);
+            Ok(vec![a.k as u64, a.offset.x().to_bits(), a.offset.y().to_bits(), a.flips[0] as u64, a.flips[1] as u64])
+        }
+        AOp::Nearest(v) => Ok(vec![a5::core::origin::find_nearest_origin(subj::sph(*v)).id as u64]),
+        AOp::Deser(c) => a5::core::serialization::deserialize(*c).map(|c| vec![c.origin_id as u64, c.segment as u64, c.s, c.resolution as u64]),
     });
     match r {
         Ok(v) => v,
@@ -956,6 +987,17 @@ pub fn race_alphabet() -> Vec<AOp> {
         AOp::Parent(id(8, 1, 1234, 7)),
         AOp::Uncompact(vec![id(6, 0, 0, 1)], 4),
         AOp::Compact(crate::refcodec::children(id(3, 3, 0, 1))),
+        // direct first users of module-level tables
+        AOp::Authalic(true, 0.7),
+        AOp::Authalic(false, -0.4),
+        AOp::IjToS(20.3, 11.2, 6, 0),
+        AOp::IjToS(11.2, 20.3, 6, 2),
+        AOp::IjToS(7.9, 30.1, 6, 4),
+        AOp::SToAnchor(0xd17e_f895_adb6, 24, 0),
+        AOp::SToAnchor(1627, 6, 3),
+        AOp::Nearest([0.3, -0.5, 0.81]),
+        AOp::Deser(id(10, 0, 5, 3)),
+        AOp::Deser(id(1, 4, 0, 1)),
     ]
 }
 
